@@ -31,6 +31,7 @@ func init() {
 			c17ValidateBeforeReplicate(r)
 			kvSizeBoundaryAgreement(r)
 			kvEntrySizeFormula(r)
+			c11TableWritesWholeHeader(r)
 			putDoesNotRetain(r)
 			memoryEscape(r)
 			c15ErrorsKeepTheirPrefix(r)
